@@ -195,7 +195,7 @@ Definition src2 (m : mop) (s : st) (x : mop) : Prop :=
       (exists u f, m = MEndBody u f) \/
       (exists h e l, m = MActs (AKill h e :: l) /\ lookup s h = Some (HOwn c))
   | MDropItem ci =>
-      In ci (mainq s) \/ In ci (lazyq s) \/ In ci (idleq s) \/
+      (In ci (mainq s) /\ ((exists i, m = MDrain i) \/ (exists t, m = MNew t))) \/ In ci (lazyq s) \/ In ci (idleq s) \/
       (exists ci0, In ci0 (map ti_ci (timers s)) /\ (ci = ci0 \/ ci = ci_unq ci0)) \/
       (exists a y, aget (actors s) a = Some y /\ In ci (held_of y)) \/
       (exists b, ci_kind ci = KPlain b)
@@ -298,7 +298,7 @@ Proof.
   - destruct (aget (actors s) a); intros Q; inj_pair Q; apply sp2_src; sp2_tac.
   - destruct (aget (actors s) a) as [y|] eqn:A; [destruct (a_state y)|]; intros Q; inj_pair Q; apply sp2_src; sp2_tac.
   - (* MNew *)
-    intros Q; inj_pair Q. apply src2_dropitems. intros ci IN. cbn [src2]. left. destruct (dk s); [exact IN | destruct IN].
+    intros Q; inj_pair Q. apply src2_dropitems. intros ci IN. cbn [src2]. left. split; [|right; eauto]. destruct (dk s); [exact IN | destruct IN].
   - destruct idle; [destruct (idleq s)|]; intros Q; inj_pair Q; apply sp2_src; sp2_tac.
   - destruct (t >? now (set_mainq s [])).
     + destruct (fire t _) as [fired s2] eqn:FI. intros Q; inj_pair Q; apply sp2_src; sp2_tac.
@@ -308,7 +308,7 @@ Proof.
     destruct (i >=? TEARDOWN_ROUNDS); [intros Q; inj_pair Q; apply sp2_src; sp2_tac|].
     destruct (mainq s) as [|c0 l0] eqn:MQ; intros Q; inj_pair Q; [apply sp2_src; sp2_tac|].
     change (MDropItem c0 :: map MDropItem l0 ++ [MDrain (i + 1)]) with (map MDropItem (c0 :: l0) ++ [MDrain (i + 1)]).
-    apply src2_app; [|apply sp2_src; reflexivity]. apply (src2_dropitems _ _ (c0 :: l0)). intros ci IN. cbn [src2]. left. rewrite MQ. exact IN.
+    apply src2_app; [|apply sp2_src; reflexivity]. apply (src2_dropitems _ _ (c0 :: l0)). intros ci IN. cbn [src2]. left. split; [rewrite MQ; exact IN | left; eauto].
   - (* MDropFields *)
     intros Q; inj_pair Q. apply src2_app; [|apply sp2_src; reflexivity].
     apply src2_dropitems. intros ci IN. cbn [src2].
